@@ -2,6 +2,7 @@ package hx
 
 import (
 	"fmt"
+	"sort"
 	"strings"
 
 	"github.com/tobgu/qframe"
@@ -73,18 +74,12 @@ func GenDerived(t *rapid.T, base Table, maxSteps int) Derived {
 	sortSel := func(reverse bool) {
 		// ranks are unique so the order is total
 		sel := append([]int(nil), d.Sel...)
-		for i := 1; i < len(sel); i++ {
-			for j := i; j > 0; j-- {
-				less := rank[sel[j]] < rank[sel[j-1]]
-				if reverse {
-					less = rank[sel[j]] > rank[sel[j-1]]
-				}
-				if !less {
-					break
-				}
-				sel[j], sel[j-1] = sel[j-1], sel[j]
+		sort.Slice(sel, func(i, j int) bool {
+			if reverse {
+				return rank[sel[i]] > rank[sel[j]]
 			}
-		}
+			return rank[sel[i]] < rank[sel[j]]
+		})
 		d.Sel = sel
 	}
 	for s := 0; s < steps; s++ {
